@@ -524,3 +524,74 @@ func init() {
 	share("C12", "R-C06-2", "expiry format agreement of validator and verifier (shared with C06)", 5, ruleC06_2, "(R-C06-2, shared with C06) validateLayout parses Expires with the same constant layout as the expiry check.")
 	share("C19", "R-C16-4", "no function returns package-level memory (shared with C16)", 1, ruleC16_4, "(R-C16-4, shared with C16) loaded keys do not share a package-level default list (key id hash algorithms) with each other.")
 }
+
+// R-C17-10: getEsc is the single place that reads one member of a character class (low and high end of a range alike).
+// It refuses an empty rest, an unescaped '-' and an unescaped ']' as a member: the class loop of matchChunk relies on
+// that for the upper bound of a range, which it does not test itself.
+func init() {
+	for _, id := range []string{"C17", "C03"} {
+		if p := registry[id]; p != nil {
+			p.Rules = append(p.Rules, Rule{ID: "R-C17-10", Doc: "getEsc refuses an empty rest, a bare '-' and a bare ']' as class member", Min: 3, Run: ruleC17_10})
+		}
+	}
+	if p := registry["C17"]; p != nil {
+		p.Explanation += " (R-C17-10) getEsc returns the bad-pattern error for an empty rest and for an unescaped '-' or ']' in member position (both ends of a range go through it)."
+	}
+}
+
+func ruleC17_10(c *Ctx) {
+	const R = "R-C17-10"
+	f := c.lookup("in_toto.getEsc")
+	if f == nil {
+		c.undecided(R, "in_toto.getEsc", "anchor", 0, "not found")
+		return
+	}
+	// the refusals happen on the unmodified parameter (before an escape is skipped)
+	first := func(v ssa.Value) bool {
+		if ix, ok := v.(*ssa.Index); ok {
+			if k, isK := constInt(ix.Index); isK && k == 0 && ix.X == ssa.Value(f.Params[0]) {
+				return true
+			}
+		}
+		if lk, ok := v.(*ssa.Lookup); ok {
+			if k, isK := constInt(lk.Index); isK && k == 0 && lk.X == ssa.Value(f.Params[0]) {
+				return true
+			}
+		}
+		return false
+	}
+	failsWhenTrue := func(cond ssa.Value) bool {
+		// the branch taken when the condition holds is a failing continuation (short-circuit || chains share it)
+		for _, cu := range condUsers(cond, false) {
+			if c.failing(branchTaken(cu, true)) {
+				return true
+			}
+		}
+		return false
+	}
+	for _, want := range []struct {
+		ch   int64
+		name string
+	}{{'-', "'-'"}, {']', "']'"}} {
+		ok := false
+		for _, b := range f.Blocks {
+			for _, in := range b.Instrs {
+				bo, isBo := in.(*ssa.BinOp)
+				if !isBo || bo.Op != token.EQL || !first(bo.X) {
+					continue
+				}
+				if k, isK := constInt(bo.Y); isK && k == want.ch && failsWhenTrue(bo) {
+					ok = true
+				}
+			}
+		}
+		c.check(ok, R, fname(f), "a bare "+want.name+" in member position is malformed", f.Pos(), "chunk[0] == "+want.name+" => errBadPattern", "getEsc accepts an unescaped "+want.name+" as class member: a range whose upper bound is that character (\"[+-]]\") is parsed as a valid class")
+	}
+	okEmpty := false
+	for _, lc := range lenCompares(f, func(v ssa.Value) bool { return v == ssa.Value(f.Params[0]) }) {
+		if failsWhenTrue(lc.bo) == evalCmp(lc.op, 0, lc.k) && evalCmp(lc.op, 0, lc.k) {
+			okEmpty = true
+		}
+	}
+	c.check(okEmpty, R, fname(f), "an empty rest is malformed", f.Pos(), "len(chunk) == 0 => errBadPattern", "getEsc does not refuse an exhausted pattern")
+}
